@@ -1,5 +1,16 @@
-"""Translator for C06: regenerates, from the working tree's source, what the model of route URL generation assumes
-about the generator half of `_compile_route`, about `quote_path_segment` and about `route_url` / `route_path`.
+"""Translator for C06.
+
+What the Lean model depends on — the safe-character set of each of the six quoting sites — is MEASURED on the tree
+under test through its public entry points (`Route(name, pattern).generate`, `Request.route_path`), in a subprocess:
+for every ASCII byte outside urllib's always-safe set, does it come out unquoted?  Nothing here reads closure
+variables or requires a particular shape of `_compile_route`.
+
+The older structural reading (below: the `gen.append` sites, the `generator` closure statement by statement,
+`quote_path_segment`, `_join_elements`, the tail of `route_url`) is kept as an OPTIONAL, informational summary in the
+evidence (`structure_optional`): a restructured but equivalent source makes those entries `false`/absent and is not an
+alarm; no Lean term depends on them.
+
+Structural reading (informational):
 
  * urldispatch.py  the four `gen.append(...)` sites (both literals through `quote_path_segment(·, safe=…)` and
                    `.replace('%', '%%')`; placeholder and remainder as `'%%(%s)s' % name`), `gen = ''.join(gen)`,
@@ -223,7 +234,7 @@ def _ordered_walk(node):
                 yield from _ordered_walk(holder)
 
 
-def generate(src_root):
+def _structure(src_root):
     flags = {k: False for k in ('pctDoubled', 'placeholderTpl', 'formatsTemplate', 'bytesDecoded', 'restPerElement',
                                 'plainStringified', 'cacheKeyedBySafe', 'quoteSegmentShape', 'assemblyShape',
                                 'elemCacheLru', 'elemKeyIsText')}
@@ -414,80 +425,162 @@ def generate(src_root):
     except (OSError, SyntaxError, Unknown) as e:
         notes.append('source not readable: %s' % e)
 
-    recognised = all(v is not None for v in sets.values()) and all(flags.values())
-    for k in sets:
+    return flags, sets, notes
+
+
+PROBE = r"""
+import json, sys
+out = {'sets': {}, 'notes': []}
+UNRES = set(b'abcdefghijklmnopqrstuvwxyzABCDEFGHIJKLMNOPQRSTUVWXYZ0123456789_.-~')
+CAND = [b for b in range(128) if b not in UNRES]
+
+
+def measure(name, fn):
+    # the ASCII bytes (other than the always-safe ones) that come out of fn(char) unquoted
+    got = []
+    try:
+        for b in CAND:
+            c = chr(b)
+            r = fn(c)
+            if r is None:
+                continue
+            if r == c:
+                got.append(b)
+            elif r.upper() != '%%%02X' % b:
+                raise ValueError('unexpected quoting of %r: %r' % (c, r))
+        out['sets'][name] = got
+    except Exception as e:
+        out['sets'][name] = None
+        out['notes'].append('%s: %s: %s' % (name, type(e).__name__, e))
+
+
+try:
+    from pyramid.urldispatch import Route
+
+    def val(c):
+        r = Route('r', '/v/{x}').generate({'x': 'a' + c + 'b'})
+        return r[len('/v/a'):-1] if r.startswith('/v/a') and r.endswith('b') else '?' + r
+
+    def rest(c):
+        r = Route('r', '/v/*x').generate({'x': ('a' + c + 'b',)})
+        return r[len('/v/a'):-1] if r.startswith('/v/a') and r.endswith('b') else '?' + r
+
+    def lit_prefix(c):
+        if c in '{}*':
+            return None                      # not literal text in the pattern grammar
+        r = Route('r', '/a' + c + '1/x').generate({})
+        return r[len('/a'):-len('1/x')] if r.startswith('/a') and r.endswith('1/x') else '?' + r
+
+    def lit_inner(c):
+        if c in '{}*':
+            return None
+        r = Route('r', '/{p}/a' + c + '1/x').generate({'p': 'v'})
+        return r[len('/v/a'):-len('1/x')] if r.startswith('/v/a') and r.endswith('1/x') else '?' + r
+    measure('valSafe', val)
+    measure('restSafe', rest)
+    measure('litSafePrefix', lit_prefix)
+    measure('litSafeInner', lit_inner)
+except Exception as e:
+    out['notes'].append('route probes: %s: %s' % (type(e).__name__, e))
+try:
+    from pyramid.config import Configurator
+    from pyramid.request import Request
+    config = Configurator()
+    config.add_route('r', '/s')
+    config.commit()
+
+    def req(script):
+        env = {'REQUEST_METHOD': 'GET', 'SCRIPT_NAME': script, 'SERVER_NAME': 'localhost', 'SERVER_PORT': '80',
+               'wsgi.url_scheme': 'http', 'HTTP_HOST': 'localhost', 'PATH_INFO': '/', 'QUERY_STRING': ''}
+        r = Request(env)
+        r.registry = config.registry
+        return r
+
+    def elem(c):
+        r = req('').route_path('r', 'a' + c + 'b')
+        return r[len('/s/a'):-1] if r.startswith('/s/a') and r.endswith('b') else '?' + r
+
+    def script(c):
+        r = req('/a' + c + 'b').route_path('r')
+        return r[len('/a'):-len('b/s')] if r.startswith('/a') and r.endswith('b/s') else '?' + r
+    measure('elemSafe', elem)
+    measure('scriptSafe', script)
+except Exception as e:
+    out['notes'].append('request probes: %s: %s' % (type(e).__name__, e))
+print(json.dumps(out))
+"""
+
+
+def _probe(src_root):
+    """the safe sets, MEASURED on the tree under test through its public entry points (Route.generate,
+    Request.route_path): which ASCII bytes come out unquoted at each of the six quoting sites"""
+    import subprocess, sys, json
+    env = dict(os.environ, PYTHONPATH=src_root, PYTHONWARNINGS='ignore')
+    py = '/venv/bin/python' if os.path.exists('/venv/bin/python') else sys.executable
+    p = subprocess.run([py, '-c', PROBE], env=env, stdout=subprocess.PIPE, stderr=subprocess.PIPE, timeout=120)
+    if p.returncode != 0:
+        raise Unknown('probe process failed: %s' % p.stderr.decode(errors='replace')[-300:])
+    return json.loads(p.stdout.decode().strip().splitlines()[-1])
+
+
+def generate(src_root):
+    notes = []
+    names = ('valSafe', 'restSafe', 'litSafePrefix', 'litSafeInner', 'elemSafe', 'scriptSafe')
+    sets = {k: None for k in names}
+    try:
+        pr = _probe(src_root)
+        for k in names:
+            sets[k] = pr['sets'].get(k)
+        notes += pr['notes']
+    except Exception as e:
+        notes.append('probe: %s: %s' % (type(e).__name__, e))
+    probed = all(sets[k] is not None for k in names)
+    for k in names:
         if sets[k] is None:
             sets[k] = POISON
+    # optional: what the source text looks like (informational only — a restructured but equivalent
+    # `_compile_route` is not an alarm; nothing in Lean depends on this)
+    structure = None
+    try:
+        flags, ssets, snotes = _structure(src_root)
+        structure = {'flags': flags, 'sets_read_from_source': {k: (None if v is None else bytes(v).decode('latin-1')) for k, v in ssets.items()},
+                     'notes': snotes}
+    except Exception as e:
+        structure = {'error': '%s: %s' % (type(e).__name__, e)}
     summary.clear()
-    summary.update({'recognised': recognised, 'flags': flags, 'sets': {k: bytes(v).decode('latin-1') for k, v in sets.items()},
-                    'notes': notes})
-
-    def b(x):
-        return 'true' if x else 'false'
+    summary.update({'probed': probed, 'sets': {k: bytes(v).decode('latin-1') for k, v in sets.items()}, 'notes': notes,
+                    'structure_optional': structure})
 
     def lst(v):
         return '[' + ', '.join(str(x) for x in v) + ']'
-    text = '''/- GENERATED by extract/c06.py from src/pyramid/{urldispatch,traversal,url}.py — do not edit. -/
+    text = """/- GENERATED by extract/c06.py — do not edit.  The safe sets are MEASURED on the tree under test through
+Route.generate / Request.route_path: the ASCII bytes, other than urllib's always-safe ones, that come out unquoted. -/
 namespace Pyr.Gen.C06
 
-/-- false when some site of the generator half of `_compile_route` did not have the expected shape -/
-def recognised : Bool := %s
+/-- every probe ran and every byte came out either as itself or as its %%HH escape -/
+def probed : Bool := %s
 
-/-- `q(v)` = quote_path_segment(v, safe=…): placeholder values and remainder elements -/
+/-- a `{name}` value -/
 def valSafe : List UInt8 := %s
 
-/-- quote_path_segment(prefix, safe=…) — the pattern's prefix literal -/
+/-- an element of a `*remainder` sequence -/
+def restSafe : List UInt8 := %s
+
+/-- the pattern's leading literal -/
 def litSafePrefix : List UInt8 := %s
 
-/-- quote_path_segment(s, safe=…) — the literals after a placeholder -/
+/-- a literal after a placeholder -/
 def litSafeInner : List UInt8 := %s
 
-/-- `_join_elements`: quote_path_segment(s, safe=…) -/
+/-- an extra positional element of `route_path` -/
 def elemSafe : List UInt8 := %s
 
-/-- `_quoted_script_name`: url_quote(bscript_name, …) -/
+/-- `SCRIPT_NAME` in front of a `route_path` result -/
 def scriptSafe : List UInt8 := %s
 
-/-- both literal sites end in `.replace('%%', '%%%%')` -/
-def pctDoubled : Bool := %s
-
-/-- placeholder and remainder are appended to `gen` as `'%%%%(%%s)s' %% name`, literal / placeholder / literal / remainder -/
-def placeholderTpl : Bool := %s
-
-/-- `gen = ''.join(gen)` and `result = gen %% newdict` -/
-def formatsTemplate : Bool := %s
-
-/-- `if v.__class__ is bytes: v = v.decode('utf-8')` is the first statement of the loop body, `newdict[k] = v` the last -/
-def bytesDecoded : Bool := %s
-
-/-- remainder branch: `if is_nonstr_iter(v): v = '/'.join([q(x) for x in v])` else `str(v)` then `q(v)` -/
-def restPerElement : Bool := %s
-
-/-- non-remainder branch: `if v.__class__ is not str: v = str(v)` then `v = q(v)` -/
-def plainStringified : Bool := %s
-
-/-- `_segment_cache` is read and written under the key `(segment, safe)` -/
-def cacheKeyedBySafe : Bool := %s
-
-/-- quote_path_segment: `url_quote(text_(segment, 'utf-8'), safe)` after `str()` of non-str/bytes -/
-def quoteSegmentShape : Bool := %s
-
-/-- `route_url`: `app_url + path + suffix + qs + anchor`, suffix = `_join_elements(elements)` with a `/` in front
-unless the path ends with one; `route_path` sets `_app_url` to the quoted script name -/
-def assemblyShape : Bool := %s
-
-/-- `_join_text_elements` (the per-element quoting) is wrapped in `lru_cache`, `_join_elements` itself is not -/
-def elemCacheLru : Bool := %s
-
-/-- `_join_elements` = `_join_text_elements(tuple([s if s.__class__ in (str, bytes) else str(s) for s in elements]))`:
-the cache key is the elements' texts (9c714c3; the older shape, keyed on the objects, is not recognised) -/
-def elemKeyIsText : Bool := %s
-
 end Pyr.Gen.C06
-''' % (b(recognised), lst(sets['valSafe']), lst(sets['litSafePrefix']), lst(sets['litSafeInner']), lst(sets['elemSafe']),
-       lst(sets['scriptSafe']), b(flags['pctDoubled']), b(flags['placeholderTpl']), b(flags['formatsTemplate']),
-       b(flags['bytesDecoded']), b(flags['restPerElement']), b(flags['plainStringified']), b(flags['cacheKeyedBySafe']),
-       b(flags['quoteSegmentShape']), b(flags['assemblyShape']), b(flags['elemCacheLru']), b(flags['elemKeyIsText']))
+""" % ('true' if probed else 'false', lst(sets['valSafe']), lst(sets['restSafe']), lst(sets['litSafePrefix']),
+       lst(sets['litSafeInner']), lst(sets['elemSafe']), lst(sets['scriptSafe']))
     return {'PyramidModel/Gen/C06.lean': text}
 
 
